@@ -83,6 +83,10 @@ def outdir_table():
     rows = []
     intern = {}
     names = ["a", "b", "ab", "a-b", "a_b", "task", "a1", "1"]
+    # long names that differ only at the very end (parameter sweeps name tasks after their parameters): every length up to what
+    # still fits a directory name (NAME_MAX 255 including ".task.<timestamp>")
+    for ln in (100, 127, 128, 138, 139, 143, 200, 230):
+        names += ["x" * (ln - 1) + "a", "x" * (ln - 1) + "b"]
     paths = [(), ("a",), ("b",), ("a", "b"), ("ab",), ("a", "a"), ("a-b",), ("task",)]
     for p in paths:
         for n in names:
